@@ -30,6 +30,53 @@ var ttypeValue = map[string]int64{"BOOL": 2, "BYTE": 3, "DOUBLE": 4, "I16": 6, "
 // selector ending in .Name of a *parser.Type, the mapping case-string → first
 // string literal assigned / appended / returned in the clause.
 func switchTable(pkg *packages.Package, fn *ast.FuncDecl) map[string]string {
+	out := switchTable1(pkg, fn)
+	// a table extracted into a helper of the package (called with a *parser.Type) counts as the caller's
+	ast.Inspect(fn, func(n ast.Node) bool {
+		call, ok := n.(*ast.CallExpr)
+		if !ok {
+			return true
+		}
+		var id *ast.Ident
+		switch f := call.Fun.(type) {
+		case *ast.Ident:
+			id = f
+		case *ast.SelectorExpr:
+			id = f.Sel
+		}
+		if id == nil {
+			return true
+		}
+		obj, _ := pkg.TypesInfo.Uses[id].(*types.Func)
+		if obj == nil || obj.Pkg() != pkg.Types {
+			return true
+		}
+		takesType := false
+		for _, a := range call.Args {
+			if t := pkg.TypesInfo.Types[a].Type; t != nil && isNamedPtr(t, "parser", "Type") {
+				takesType = true
+			}
+		}
+		if !takesType {
+			return true
+		}
+		for _, file := range pkg.Syntax {
+			for _, d := range file.Decls {
+				if fd, ok := d.(*ast.FuncDecl); ok && pkg.TypesInfo.Defs[fd.Name] == types.Object(obj) && fd != fn {
+					for k, v := range switchTable1(pkg, fd) {
+						if old, seen := out[k]; (!seen || old == "") && v != "" {
+							out[k] = v
+						}
+					}
+				}
+			}
+		}
+		return true
+	})
+	return out
+}
+
+func switchTable1(pkg *packages.Package, fn *ast.FuncDecl) map[string]string {
 	out := map[string]string{}
 	ast.Inspect(fn, func(n ast.Node) bool {
 		sw, ok := n.(*ast.SwitchStmt)
@@ -68,14 +115,24 @@ func switchTable(pkg *packages.Package, fn *ast.FuncDecl) map[string]string {
 				})
 			}
 			if cc.List == nil {
-				// default clause: look for the enum / struct fallbacks
+				// default clause: look for the enum / struct fallbacks, written as an if chain
+				// or as the cases of a tagless switch
 				ast.Inspect(cc, func(m ast.Node) bool {
-					ifs, ok := m.(*ast.IfStmt)
-					if !ok {
+					var cond ast.Node
+					var body []ast.Stmt
+					switch x := m.(type) {
+					case *ast.IfStmt:
+						cond, body = x.Cond, x.Body.List
+					case *ast.CaseClause:
+						if x == cc || len(x.List) != 1 {
+							return true
+						}
+						cond, body = x.List[0], x.Body
+					default:
 						return true
 					}
 					kind := ""
-					ast.Inspect(ifs.Cond, func(c ast.Node) bool {
+					ast.Inspect(cond, func(c ast.Node) bool {
 						if id, ok := c.(*ast.Ident); ok {
 							switch id.Name {
 							case "isEnum", "IsEnum":
@@ -89,7 +146,7 @@ func switchTable(pkg *packages.Package, fn *ast.FuncDecl) map[string]string {
 					if kind == "" {
 						return true
 					}
-					for _, s := range ifs.Body.List {
+					for _, s := range body {
 						ast.Inspect(s, func(c ast.Node) bool {
 							if bl, ok := c.(*ast.BasicLit); ok && bl.Kind == token.STRING {
 								if _, seen := out[kind]; !seen {
@@ -398,7 +455,13 @@ func C02(ctx *core.Ctx) {
 			}
 		}
 		resOpt, argFix, succ0 := false, false, false
-		ssax.Instrs(fn, func(in ssa.Instruction) {
+		// the synthesis may be split into helpers of the same package
+		scan := func(f func(in ssa.Instruction)) {
+			for _, g := range localCone(fn, 2) {
+				ssax.Instrs(g, f)
+			}
+		}
+		scan(func(in ssa.Instruction) {
 			if st, ok := in.(*ssa.Store); ok && fieldNameOfAddr(st.Addr) == "Modifier" {
 				if k, isK := ssax.ConstInt(st.Val); isK {
 					if k == optional && inCycle(in) {
